@@ -256,10 +256,12 @@ def oracles(tokens, timeout, maxidle, stats):
                 sid = int(f[1])
                 r_, nq, nobs, nas, napp = (int(x) for x in f[2:7])
                 dq_f = int(f[7]) if len(f) > 7 else 1
-                if r_ != 1 or nq or nobs or nas or napp or ref.get(sid, 0) != 0:
+                # session->ref at that moment is 1 (coap_session_free holds itself) or 0; what counts
+                # are the references taken and not dropped and the holders found in the structures
+                if r_ > 1 or nq or nobs or nas or napp or ref.get(sid, 0) != 0:
                     bad.append(("freed-held", "session %d released while referenced: ref=%d queue=%d "
                                 "observers=%d async=%d app=%d counted=%d"
-                                % (sid, r_ - 1, nq, nobs, nas, napp, ref.get(sid, 0))))
+                                % (sid, r_, nq, nobs, nas, napp, ref.get(sid, 0))))
                 if teardown:
                     facts["teardown_frees"] += 1
                 elif last_x is not None and not got_y and "X" in [e[0] for e in evs]:
@@ -474,14 +476,14 @@ def c_oracles(tokens, stats):
                 r_, nq, nobs, nas, napp = (int(x) for x in f[2:7])
                 if teardown:
                     facts["freed_at_teardown"] += 1
-                    if r_ != 1 or nq or napp > 1:
+                    if r_ > 1 or nq or napp > 1:
                         bad.append(("freed-held", "client session %d released at teardown: ref=%d "
-                                    "queue=%d app=%d" % (sid, r_ - 1, nq, napp)))
+                                    "queue=%d app=%d" % (sid, r_, nq, napp)))
                 else:
                     facts["freed_on_release"] += 1
-                    if r_ != 1 or nq or nobs or nas or napp or ref.get(sid, 0) != 0:
+                    if r_ > 1 or nq or nobs or nas or napp or ref.get(sid, 0) != 0:
                         bad.append(("freed-held", "client session %d released while referenced: ref=%d "
-                                    "queue=%d app=%d counted=%d" % (sid, r_ - 1, nq, napp, ref.get(sid, 0))))
+                                    "queue=%d app=%d counted=%d" % (sid, r_, nq, napp, ref.get(sid, 0))))
                 live.discard(sid)
             elif k == "H":
                 sid = int(f[2])
